@@ -92,6 +92,7 @@ func runC04(c *Ctx) {
 	c.expect("C04.c", 2)
 	c.expect("C04.d", 3)
 
+	c04Normalise(c)
 	pk := c.P.Pkg("vaxis")
 	info := pk.TypesInfo
 	suspend := c.P.Func("vaxis.(*Vaxis).Suspend")
